@@ -73,4 +73,115 @@ def specPoll (timeout : Nat) (since : Option Nat) (o : Obs) (closed : Bool) : Bo
       | some t => decide (t + timeout ≤ o.now)
       | Option.none => false))
 
+
+/-! ## The whole connection, op by op (end-to-end correspondence with the real `Connection::poll`)
+
+State = what `Connection::poll` looks at, as counts: requests still queued in the handler (`hq`),
+`requested_substreams` (`req`), substreams the muxer is ready to hand out (`outTokens`) / has ready
+inbound (`inbWaiting`), negotiating upgrades whose remote has not / has answered (`neg*W` / `neg*R`),
+streams held by the handler and counted (`held`) or marked `ignore_for_keep_alive` (`ignored`).
+`lastBusy` is a ghost: the last moment a keep-alive condition held (a stream condition at any op, the
+handler's keep-alive answer at the polls that sampled it). -/
+
+structure CS where
+  timeout : Nat
+  maxNegIn : Nat
+  now : Nat := 0
+  keepAlive : Bool := false
+  hq : Nat := 0
+  req : Nat := 0
+  outTokens : Nat := 0
+  negOutW : Nat := 0
+  negOutR : Nat := 0
+  inbWaiting : Nat := 0
+  negInW : Nat := 0
+  negInR : Nat := 0
+  held : Nat := 0
+  ignored : Nat := 0
+  sh : Sh := .none
+  closed : Bool := false
+  lastBusy : Nat := 0
+
+/-- an active stream not marked ignore, a stream still negotiating, or an outstanding outbound request -/
+def busyS (c : CS) : Bool :=
+  decide (0 < c.hq + c.req + c.negOutW + c.negOutR + c.negInW + c.negInR + c.held)
+
+/-- what the shutdown block sees -/
+def obsOf (c : CS) : Obs :=
+  { negIn := c.negInW + c.negInR, negOut := c.negOutW + c.negOutR, requested := c.req,
+    counted := c.negOutW + c.negOutR + c.negInW + c.negInR + c.held,
+    keepAlive := c.keepAlive, now := c.now, fired := true }
+
+/-- top of the loop: the handler's queued requests are pushed to `requested_substreams`, finished
+negotiations are delivered to the handler (which holds the stream) -/
+def absorb (c : CS) : CS :=
+  { c with req := c.req + c.hq, hq := 0, held := c.held + c.negOutR + c.negInR, negOutR := 0, negInR := 0 }
+
+inductive PollRes where
+  | pending | closed
+  deriving DecidableEq, Repr
+
+/-- state after the shutdown block of one loop iteration (the ghost `lastBusy` is refreshed when a
+condition holds at this point) -/
+def afterBlock (c : CS) : CS :=
+  { absorb c with
+    sh := (pollShutdown (absorb c).timeout (absorb c).sh (obsOf (absorb c))).1,
+    lastBusy := if busyS (absorb c) || (absorb c).keepAlive then (absorb c).now else (absorb c).lastBusy }
+
+/-- `muxing.poll_outbound` hands a substream to the first requested one: it starts negotiating -/
+def grantOut (c : CS) : CS :=
+  { c with req := c.req - 1, outTokens := c.outTokens - 1, negOutW := c.negOutW + 1 }
+
+/-- `muxing.poll_inbound` yields a substream: it starts negotiating -/
+def acceptIn (c : CS) : CS :=
+  { c with inbWaiting := c.inbWaiting - 1, negInW := c.negInW + 1 }
+
+/-- the `loop` of `Connection::poll` -/
+def pollLoop : Nat → CS → CS × PollRes
+  | 0, c => (c, .pending)
+  | fuel + 1, c =>
+    if (pollShutdown (absorb c).timeout (absorb c).sh (obsOf (absorb c))).2 then
+      ({ afterBlock c with closed := true }, .closed)
+    else if 0 < (afterBlock c).req && 0 < (afterBlock c).outTokens then
+      pollLoop fuel (grantOut (afterBlock c))
+    else if (afterBlock c).negInW + (afterBlock c).negInR < (afterBlock c).maxNegIn
+        && 0 < (afterBlock c).inbWaiting then
+      pollLoop fuel (acceptIn (afterBlock c))
+    else (afterBlock c, .pending)
+
+inductive COp where
+  | ka (b : Bool) | req | allow | respOut | inb | respIn | drop | ignore | dropIgn
+  | adv (d : Nat) | poll
+
+def applyOp (c : CS) : COp → CS
+  | .ka b => { c with keepAlive := b }
+  | .req => { c with hq := c.hq + 1 }
+  | .allow => { c with outTokens := c.outTokens + 1 }
+  | .respOut => if 0 < c.negOutW then { c with negOutW := c.negOutW - 1, negOutR := c.negOutR + 1 } else c
+  | .inb => { c with inbWaiting := c.inbWaiting + 1 }
+  | .respIn => if 0 < c.negInW then { c with negInW := c.negInW - 1, negInR := c.negInR + 1 } else c
+  | .drop => if 0 < c.held then { c with held := c.held - 1 } else c
+  | .ignore => if 0 < c.held then { c with held := c.held - 1, ignored := c.ignored + 1 } else c
+  | .dropIgn => if 0 < c.ignored then { c with ignored := c.ignored - 1 } else c
+  | .adv d => { c with now := c.now + d }
+  | .poll => c
+
+/-- ghost: a stream condition holding after an op holds *now* -/
+def touch (c : CS) : CS := if busyS c then { c with lastBusy := c.now } else c
+
+def cstep (c : CS) (o : COp) : CS × Option PollRes :=
+  if c.closed then (c, none) else
+  match o with
+  | .poll =>
+    let r := pollLoop (c.hq + c.req + c.inbWaiting + 2) c
+    (touch r.1, some r.2)
+  | o => (touch (applyOp c o), none)
+
+def cinit (timeout maxNegIn : Nat) : CS := { timeout := timeout, maxNegIn := maxNegIn }
+
+/-- Spec of a poll's verdict: a `KeepAliveTimeout` is legitimate only if no keep-alive condition holds
+and at least `timeout` has passed since the last moment one held. -/
+def specClose (timeout : Nat) (busy keepAlive : Bool) (lastBusy now : Nat) (closed : Bool) : Bool :=
+  !closed || (!busy && !keepAlive && decide (lastBusy + timeout ≤ now))
+
 end C10
